@@ -44,6 +44,10 @@ def run_canary(c, scratch):
         return {"name": c["name"], "verdict": "patch-does-not-apply", "detail": r.stdout[-400:]}
     out = os.path.join(scratch, "facts")
     shutil.rmtree(out, ignore_errors=True)
+    if c.get("benign") and MUT_CACHE:
+        # a run over several properties evaluates every behaviour-preserving edit once per property: extract its facts once
+        h, _ = factsmod.source_hash(repo)
+        out = os.path.join(MUT_CACHE, h)
     try:
         d = factsmod.extract(repo=repo, bins=False, target_dir=os.path.join(factsmod.CACHE, "target-mut"), out_dir=out)
     except SystemExit as e:
@@ -125,9 +129,19 @@ def run_for_property(prop, only=None):
     return 0
 
 
+MUT_CACHE = None
+
+
 def main(argv):
+    global MUT_CACHE
     props = argv or engine.PROPS
     rc = 0
-    for p in props:
-        rc = max(rc, run_for_property(p))
+    if len(props) > 1:
+        MUT_CACHE = tempfile.mkdtemp(prefix="snelcheck-mutfacts-", dir="/var/tmp")
+    try:
+        for p in props:
+            rc = max(rc, run_for_property(p))
+    finally:
+        if MUT_CACHE:
+            shutil.rmtree(MUT_CACHE, ignore_errors=True)
     return rc
